@@ -6,7 +6,8 @@
 //!   B xdel <auth>                        delete_position_bundle
 //!
 //! auth: 0 the bundle's owner signs · 1 a stranger signs · 2 the owner's key is passed but does not sign ·
-//!       3 a one-token delegate signs (the token program's Approve ran before) — delete needs the owner itself.
+//!       3 a one-token delegate signs (the token program's Approve ran before) — delete needs the owner itself ·
+//!       4 the owner signs but passes the token account of ANOTHER bundle (another mint) it also holds.
 //! The bundle account, its mint and the owner's associated token account are created by Anchor's `init` through
 //! the system program, the REAL SPL Token processor and the associated-token stand-in; bundled positions are
 //! created / closed by Anchor's `init` / `close`.  The world persists from op to op (it IS the history).
@@ -35,6 +36,7 @@ struct BunWorld {
     bundle: Pubkey,
     mint: Pubkey,
     token: Pubkey,
+    other_token: Pubkey,
     owner: Pubkey,
     funder: Pubkey,
     stranger: Pubkey,
@@ -130,7 +132,14 @@ impl BunWorld {
         if let Err(e) = res {
             return Err(format!("{} / {}", crate::ix::err_name(&e, &out.logs), out.logs.join(" / ")));
         }
-        Ok(BunWorld { bank, pool, ts, bundle, mint, token, owner, funder, stranger, delegate, rent_id, deleted: false })
+        // the owner also holds the token of ANOTHER bundle (another mint): auth mode 4 passes that account instead
+        let (omint, otoken) = (k(0xE5, 2), k(0xE6, 2));
+        let m = bank.data(&mint);
+        bank.set(omint, anchor_spl::token::ID, 1_500_000, m);
+        let mut td = bank.data(&token);
+        td[0..32].copy_from_slice(omint.as_ref());
+        bank.set(otoken, anchor_spl::token::ID, 2_100_000, td);
+        Ok(BunWorld { bank, pool, ts, bundle, mint, token, other_token: otoken, owner, funder, stranger, delegate, rent_id, deleted: false })
     }
 
     fn bitmap(&self) -> Option<[u8; 32]> {
@@ -203,6 +212,14 @@ impl BunWorld {
             _ => (self.owner, true),
         }
     }
+    /// auth mode 4 (C15): the token account of ANOTHER bundle, held by the same owner, sits in the token slot
+    fn token_slot(&self, auth: u8) -> Pubkey {
+        if auth == 4 {
+            self.other_token
+        } else {
+            self.token
+        }
+    }
     fn clear_delegate(&mut self) {
         let a = self.bank.get(&self.token);
         if a.owner == anchor_spl::token::ID && a.data.len() == 165 {
@@ -237,7 +254,7 @@ impl Family for XBundle {
         }
         *left -= 1;
         let ts = *self.gen_ts.borrow() as i64;
-        let auth = r.pick(&[0u8, 0, 0, 0, 0, 0, 0, 0, 1, 2, 3, 3]);
+        let auth = r.pick(&[0u8, 0, 0, 0, 0, 0, 0, 0, 1, 2, 3, 3, 4]);
         let pick_index = |r: &mut Rng, want_open: bool| -> u64 {
             match r.below(8) {
                 0 => r.pick(&[0u64, 1, 7, 8, 9, 63, 64, 254, 255, 256, 257, 65535]),
@@ -331,7 +348,7 @@ impl XBundle {
                 let acc = ::whirlpool::accounts::OpenBundledPosition {
                     bundled_position: position_pda(&w.mint, i),
                     position_bundle: w.bundle,
-                    position_bundle_token_account: w.token,
+                    position_bundle_token_account: w.token_slot(auth),
                     position_bundle_authority: signer_key,
                     whirlpool: w.pool,
                     funder: w.funder,
@@ -356,6 +373,9 @@ impl XBundle {
                         ctx.tag("open_ok");
                         if auth == 1 || auth == 2 {
                             ctx.viol(format!("C04 open_bundled_position succeeded without the bundle owner's (or a delegate's) signature (mode {})", auth));
+                        }
+                        if auth == 4 {
+                            ctx.viol("C15/C04 open_bundled_position accepted the token of ANOTHER bundle as this bundle's token".to_string());
                         }
                         let bm1 = w.bitmap().unwrap();
                         let mut want = bm0;
@@ -414,7 +434,7 @@ impl XBundle {
                 let acc = ::whirlpool::accounts::CloseBundledPosition {
                     bundled_position: pda,
                     position_bundle: w.bundle,
-                    position_bundle_token_account: w.token,
+                    position_bundle_token_account: w.token_slot(auth),
                     position_bundle_authority: signer_key,
                     receiver: w.funder,
                 };
@@ -436,6 +456,9 @@ impl XBundle {
                         ctx.tag("close_ok");
                         if auth == 1 || auth == 2 {
                             ctx.viol(format!("C04 close_bundled_position succeeded without the bundle owner's (or a delegate's) signature (mode {})", auth));
+                        }
+                        if auth == 4 {
+                            ctx.viol("C15/C04 close_bundled_position accepted the token of ANOTHER bundle as this bundle's token".to_string());
                         }
                         if made_dirty {
                             ctx.viol(format!("C18 a bundled position that is not empty (case {}) was closed", dirty));
@@ -472,7 +495,7 @@ impl XBundle {
                 let acc = ::whirlpool::accounts::DeletePositionBundle {
                     position_bundle: w.bundle,
                     position_bundle_mint: w.mint,
-                    position_bundle_token_account: w.token,
+                    position_bundle_token_account: w.token_slot(auth),
                     position_bundle_owner: signer_key,
                     receiver: w.funder,
                     token_program: anchor_spl::token::ID,
